@@ -17,6 +17,10 @@ enc_utf8 = z3.Function("utf8_surrogateescape_encode", z3.StringSort(), z3.String
 dec_utf8 = z3.Function("utf8_surrogateescape_decode", z3.StringSort(), z3.StringSort())
 
 
+def is_model_text(v):
+    return type(v).__module__.startswith("pyvc.models") and type(v).__name__ in ("JSText", "JSLines", "ISOText", "IPText", "CsvRow")
+
+
 def str_of(it, x):
     if isinstance(x, str):
         return x
@@ -420,6 +424,14 @@ def install(it):
             return MapFormatter(it).run(slf, (), {})
         if isinstance(slf, str) and name == "join" and args and not isinstance(args[0], (list, tuple, str, dict, set)):
             args = [list(it.iterate(args[0]))] + list(args[1:])  # materialise iterators (reversed(...), generators) to look at the elements
+        if isinstance(slf, str) and name == "join" and args and isinstance(args[0], (list, tuple)) and args[0] and all(type(p).__name__ == "JSText" for p in args[0]):
+            if slf != "\n":
+                raise Unsupported(f"JSON texts joined by {slf!r}")
+            from .jsonm import JSLines
+
+            return JSLines([p + "\n" for p in args[0][:-1]] + [args[0][-1]]) if len(args[0]) > 1 else args[0][0]
+        if isinstance(slf, str) and name == "join" and args and isinstance(args[0], (list, tuple)) and any(is_model_text(p) for p in args[0]):
+            raise Unsupported("str.join over abstract model texts")
         if isinstance(slf, str) and name == "join" and args and not it.concrete(args[0]):
             parts = [p if isinstance(p, (str, SStr)) else it.unbase(p) for p in it.iterate(args[0])]
             if all(isinstance(p, str) for p in parts):
